@@ -395,7 +395,7 @@ fn cmd_native(args: &[String]) -> i32 {
                         );
                         account(&mut st, &plan, &out, &mut digests, idx);
                         let refd = digest_reference(&out.reference);
-                        if idx < first + ref_digest_n {
+                        if idx < first + ref_digest_n && !out.violations.iter().any(|v| v.oracle == "O7") {
                             st.ref_digests.push((idx, refd));
                         }
                         if want_dump {
@@ -643,7 +643,7 @@ fn warm_up(order: u64) {
         let text = match k {
             Kind::F64 | Kind::F32 => "sin(x)+1*2-log2y",
             Kind::F64b => "dbl(x)<=2**3*pad05(y)",
-            Kind::Val => "1 if x>0 else [1,2]",
+            Kind::Val | Kind::Val64 => "fact(3) if x>0 else [1,2]",
             Kind::Bool => "!p&&true",
             Kind::Sim | Kind::Sim2 => "sq(x)**2<=3*TEN",
             Kind::Sim3 => "tw(x)&&1<<2",
@@ -842,6 +842,12 @@ fn cmd_firstuse(args: &[String]) -> i32 {
             };
             let raw_path = write_replay(&replay_dir, &format!("C20-firstuse-s{seed}-r{idx}-raw.json"),
                 &mk(&w, &res.schedule, v, false, orig, 0, "unminimised failing first-use run (fresh process)"));
+            if v.oracle == "O7" {
+                // every candidate would sit out the no-progress timeout; report the run as it is
+                violation = Some(serde_json::json!({"replay": raw_path, "raw_replay": raw_path, "violation": v,
+                    "original_size": orig, "final_size": orig}));
+                break;
+            }
             let mut exec = |w: &Workload, s: Source| match child_exec(&scratch, tag, w, s, alloc_every, warm_full) {
                 Ok(r) => r,
                 Err(_) => ExecResult { violations: vec![], schedule: vec![], report: Default::default(), n_victims: 0, ref_digest: 0 },
@@ -931,6 +937,7 @@ fn main() {
         Some("show") => cmd_show(&args[1..]),
         Some("firstuse") => cmd_firstuse(&args[1..]),
         Some("fu-one") => cmd_fu_one(&args[1..]),
+        Some("evalone") => cmd_evalone(&args[1..]),
         Some("firstuse-exec") => cmd_firstuse_exec(&args[1..]),
         Some("panics") => cmd_panics(&args[1..]),
         Some("plain") => plain::cmd_plain(&args[1..], &YIELD_EVERY),
@@ -999,5 +1006,19 @@ pub fn cmd_fu_one(args: &[String]) -> i32 {
     let (r, r2) = h.join().unwrap();
     println!("violations={} steps={} digest={:016x} | second run in same process (strict): violations={} diverged={} steps={}",
         r.violations.len(), r.report.steps, r.report.trace_digest, r2.violations.len(), r2.report.diverged, r2.report.steps);
+    0
+}
+
+#[allow(dead_code)]
+pub fn cmd_evalone(args: &[String]) -> i32 {
+    // debugging aid: parse a text of a kind and evaluate it at a point
+    let kind = kinds::kind_from_name(arg(args, "--kind").unwrap_or("F64")).expect("kind");
+    let text = arg(args, "--text").expect("--text");
+    let point = arg_u64(args, "--point", 0) as u32;
+    let form = if arg(args, "--form") == Some("deep") { kinds::Form::Deep } else { kinds::Form::Flat };
+    match kinds::make_handle(kind, form, text, true) {
+        Ok(h) => println!("{}\neval: {}", h.inspect(), h.eval(point, 0, 0)),
+        Err(e) => println!("parse error: {e}"),
+    }
     0
 }
